@@ -21,7 +21,7 @@ def run(ctx):
     ctx.validate("Trace_Inversion", "Trace_Inversion.cfg", ti)
     # specification -> code: the constructions of Alias / Bst / Huffman are run by TLC on the driver's weight vectors and
     # the final structure is compared with the real object's (DRIFT notice if they differ)
-    for kind, mod in (("alias", "Struct_Alias"), ("bst", "Struct_Bst"), ("huffman", "Struct_Huffman")):
+    for kind, mod in (("alias", "Struct_Alias"), ("bst", "Struct_Bst"), ("huffman", "Struct_Huffman"), ("table", "Struct_Table")):
         ts = ctx.trace_path("struct_" + kind)
         ctx.drive("struct_run", [ts, ctx.tier, ctx.seed, kind])
         ctx.validate(mod, mod + ".cfg", ts)
